@@ -24,11 +24,18 @@ const (
 
 type intrinsicFn func(fr *frame, args []value) value
 
+// condStub is a stub that applies only on paths that set its tag (v.Tag).
+type condStub struct {
+	tag string
+	fn  *ssa.Function
+}
+
 type fnInfo struct {
 	kind fnKind
 	h    intrinsicFn
 	stub    *ssa.Function
 	stubTag string
+	cond    []condStub // conditional stubs (tag -> function)
 	name    string
 }
 
@@ -41,6 +48,7 @@ var opaquePkgs = []string{
 	"log",
 	"encoding/json",
 	"expvar",
+	"net/http/pprof",
 }
 
 // std / third-party packages whose (pure) functions may be interpreted from
@@ -81,15 +89,13 @@ func (e *Engine) classify1(fn *ssa.Function) *fnInfo {
 	if i := strings.IndexByte(base, '['); i > 0 && fn.Origin() != nil {
 		base = fn.Origin().String()
 	}
+	// conditional stubs (active on paths that set their tag) take precedence
+	// over whatever the unconditional classification is
+	info.cond = e.condStubs[base]
 	if stub, ok := e.stubs[base]; ok {
-		// a stub may be conditional on a path tag (set by the harness with
-		// v.Tag); the unconditional classification is kept as the fallback
 		info.stub = stub
-		info.stubTag = e.stubTags[base]
-		if info.stubTag == "" {
-			info.kind = fkStub
-			return info
-		}
+		info.kind = fkStub
+		return info
 	}
 	if h, ok := intrinsics[base]; ok {
 		info.kind, info.h = fkIntrinsic, h
